@@ -536,6 +536,7 @@ func checkC03(R *Run) {
 	}
 	R.floor("lock-release", 40)
 	R.ruleGoNilCapture(guardedReach)
+	R.ruleLockCopy()
 	// cycle detection
 	{
 		cyc := ""
@@ -1394,4 +1395,62 @@ func (R *Run) ruleGoNilCapture(guardedReach map[*ssa.Function]bool) {
 		})
 	}
 	R.floor("go-nil-capture", 1)
+}
+
+// ruleLockCopy: a mutex protects what it is declared next to only if every goroutine locks the same mutex. A method
+// with a value receiver (or any helper handed the struct by value) locks the mutex of its private copy: the callers
+// exclude nobody, while the map or slice header next to it is still shared (what `go vet` calls copylocks; the suite
+// is run with -vet=off).
+func (R *Run) ruleLockCopy() {
+	P := R.P
+	R.rule("lock-copy", "no sync.Mutex / sync.RWMutex operation is applied to a mutex inside a local variable that was filled by copying a struct from a parameter, a field or a global (value receivers, by-value parameters): such a lock excludes nobody")
+	n := 0
+	for _, fn := range P.Funcs {
+		if fn.Pkg == nil || fn.Pkg.Pkg.Path() == cmdPath || isClientLibrary(fn) {
+			continue
+		}
+		for _, ci := range callsIn(fn) {
+			c := ci.Common()
+			name := calleeName(c)
+			if !strings.HasPrefix(name, "(*sync.Mutex).") && !strings.HasPrefix(name, "(*sync.RWMutex).") || len(c.Args) == 0 {
+				continue
+			}
+			if !strings.HasSuffix(name, "Lock") {
+				continue
+			}
+			n++
+			root, path := addrPath(c.Args[0])
+			al, isLocal := root.(*ssa.Alloc)
+			if !isLocal || len(path) == 0 {
+				continue
+			}
+			copied := ""
+			for _, r := range *al.Referrers() {
+				st, isSt := r.(*ssa.Store)
+				if !isSt || st.Addr != ssa.Value(al) {
+					continue
+				}
+				switch v := st.Val.(type) {
+				case *ssa.Parameter:
+					copied = "parameter " + v.Name()
+				case *ssa.UnOp:
+					if v.Op == token.MUL {
+						if src, _ := addrPath(v.X); src != nil {
+							if _, fresh := src.(*ssa.Alloc); !fresh {
+								copied = P.sym(v)
+							}
+						}
+					}
+				}
+			}
+			if copied != "" {
+				R.bad("lock-copy", fmt.Sprintf("%s: %s #%d", fname(fn), sed(name), nCreateIn(fn, ci)), P.ipos(ci),
+					"the mutex that is locked lives in a local copy of the struct (copied from "+copied+"): every caller locks a mutex of its own, so the data the struct's mutex is declared to guard is accessed without exclusion")
+			}
+		}
+	}
+	if n > 0 {
+		R.ok("lock-copy", "server packages", "-", fmt.Sprintf("%d lock operations examined", n))
+	}
+	R.floor("lock-copy", 1)
 }
